@@ -197,24 +197,25 @@ sexp sexp_bit_xor (sexp ctx, sexp self, sexp_sint_t n, sexp x, sexp y) {
       if (sexp_bignum_sign(res) < 0)
         sexp_set_twos_complement(res);
     } else if (sexp_bignump(y) || sexp_fixnump(y)) {
+      /* one more word than the longer operand, for the sign extension */
       if (sexp_fixnump(y) || sexp_bignum_length(x) >= sexp_bignum_length(y)) {
-        res = sexp_copy_bignum(ctx, NULL, x, 0);
+        res = sexp_copy_bignum(ctx, NULL, x, sexp_bignum_length(x)+1);
         tmp = sexp_fixnump(y) ? sexp_fixnum_to_twos_complement(ctx, y, sexp_bignum_length(x)) : sexp_twos_complement(ctx, y);
-        len = sexp_bignum_length(tmp);
       } else {
-        res = sexp_copy_bignum(ctx, NULL, y, 0);
-        tmp = sexp_twos_complement(ctx, y);
-        len = sexp_bignum_length(tmp);
+        res = sexp_copy_bignum(ctx, NULL, y, sexp_bignum_length(y)+1);
+        tmp = sexp_twos_complement(ctx, x);
       }
+      len = sexp_bignum_length(res);
       if (sexp_bignum_sign(res) < 0)
         sexp_set_twos_complement(res);
       tmplen = sexp_bignum_length(tmp);
       for (i=0; i<len; i++)
         sexp_bignum_data(res)[i] ^= (i<tmplen ? sexp_bignum_data(tmp)[i] : sexp_bignum_sign(tmp) < 0 ? -1 : 0);
-      if ((sexp_bignum_sign(x) < 0) ^ (sexp_fixnump(y) || sexp_bignum_sign(y) < 0))
+      if (((sexp_sint_t)(sexp_bignum_data(res)[len-1])) < 0) {
         sexp_set_twos_complement(res);
-      if (sexp_fixnump(y) || sexp_bignum_sign(y) < 0) {
-        sexp_negate_exact(res);
+        sexp_bignum_sign(res) = -1;
+      } else {
+        sexp_bignum_sign(res) = 1;
       }
     } else {
       res = sexp_type_exception(ctx, self, SEXP_FIXNUM, y);
